@@ -231,7 +231,14 @@ func c19Config(run *evid.Run, cfg Cfg, ca, rogue *rig.CA, ci int, noCA bool) {
 	for i := 0; i < 12; i++ {
 		accounts = append(accounts, fmt.Sprintf("acct%d", i))
 	}
+	// The host's trust store (what SystemCertPool returns inside the daemon) holds the OTHER authority: a daemon
+	// that trusts anything besides the configured authority would accept its certificates.
+	_ = os.MkdirAll(dir, 0o755)
+	trustFile, trustDir := filepath.Join(dir, "host-trust.pem"), filepath.Join(dir, "host-trust.d")
+	_ = os.WriteFile(trustFile, rogue.CertPEM, 0o644)
+	_ = os.MkdirAll(trustDir, 0o755)
 	d, err := rig.PrepareDaemon(rig.DaemonOpts{Dir: dir, ID: 1, IP: "127.0.0.1", Port: port, CA: ca, NoCAInCfg: noCA,
+		Env: []string{"SSL_CERT_FILE=" + trustFile, "SSL_CERT_DIR=" + trustDir},
 		Peers:       map[uint64]string{1: fmt.Sprintf("127.0.0.1:%d", port)},
 		Permissions: map[string]map[string][]string{"client1": {"Wallet1": {"All"}, "D": {"All"}}, "client2": {"Wallet2": {"All"}}},
 		NDWallets:   map[string][]string{"Wallet1": accounts, "Wallet2": {"other"}}, DistWallets: []string{"D"}})
